@@ -10,6 +10,8 @@ hint = {
  "b": "Prefer a change that needs a particular interleaving, a fault/crash at a particular point, or two cooperating edits at different sites that each look harmless alone.",
  "d": "Prefer a change whose effect appears only after a rarely exercised state transition: wrap-around, expiry, recovery after an error or outage, reconnect, restart, reuse of an object after a failure or after Close/Stop, or the second use of something cached, pooled or memoised. First use and fresh-object behaviour must stay identical to the original.",
  "e": "Prefer a change on an error, fault or cancellation path, or at an extreme of a legal argument range: behaviour differs only when a dependency fails at a particular point, a context is cancelled, a callback panics or returns a particular kind of error, or an argument/configuration value is zero, negative, maximal, empty or nil.",
+ "f": "Prefer a change in which arithmetic, a comparison or boundary handling is subtly off (off-by-one, <= versus <, integer division or rounding, overflow or wrap-around, a unit conversion, an index or length computation), so that only specific values exactly at a boundary, or a specific size, manifest it; every value the existing tests use must behave as before.",
+ "g": "Prefer a change that introduces cross-talk through shared mutable state: a package-level cache or pool, a shared buffer, aliasing of a slice or map, state kept per process or per instance where it must be per key / per call / per object (or the reverse). It must manifest only when two instances, keys, callers or calls are used together or one after the other in a particular way; a single instance used alone must behave exactly as before.",
  "c": "Prefer a change in one of the *secondary* files listed below (a call site, wrapper, middleware, interceptor, adapter, helper or convenience entry point of the mechanism) rather than in its core data structure, and one that needs an unusual but legal input, configuration or sequence to manifest.",
 }[variant]
 extra = ""
